@@ -14,9 +14,29 @@ import (
 )
 
 // virtual OS for an in-process interpreter (no files, no terminal), after format/fuzz_test.go
+// vfs serves in-memory regular files (memFiles) to fq's `open`: the reader stack is the one of a real
+// file (ctxreadseeker -> progressreadseeker -> aheadreadseeker -> IOBitReadSeeker, binary.go:249-289)
 type vfs struct{}
 
-func (vfs) Open(name string) (fs.File, error) { return nil, fmt.Errorf("%s: file not found", name) }
+var memFiles = map[string][]byte{}
+
+type memFile struct {
+	*bytes.Reader
+	name string
+	size int64
+}
+
+func (m memFile) Stat() (fs.FileInfo, error) {
+	return interp.FixedFileInfo{FName: m.name, FSize: m.size}, nil
+}
+func (memFile) Close() error { return nil }
+
+func (vfs) Open(name string) (fs.File, error) {
+	if b, ok := memFiles[name]; ok {
+		return memFile{Reader: bytes.NewReader(b), name: name, size: int64(len(b))}, nil
+	}
+	return nil, fmt.Errorf("%s: file not found", name)
+}
 
 type vin struct {
 	interp.FileReader
